@@ -19,7 +19,6 @@ import (
 	"context"
 	"fmt"
 	"math/big"
-	"os"
 	"strings"
 
 	"github.com/agglayer/aggkit/bridgesync"
@@ -174,7 +173,7 @@ func refRoots(leaves []ref.Hash) []ref.Hash {
 func run(c *mc.Ctx, u mc.Unit) {
 	p := u.Params.(params)
 	dir := sk.ScratchDir()
-	defer os.RemoveAll(dir)
+	defer kit.RemoveScratch(dir)
 	node := sk.Open(sk.Bridge, dir)
 	defer func() { node.Close() }()
 	// a panic of the code under test while it handles a valid deposit is reported as a violation
